@@ -12,8 +12,9 @@ import netgen
 from exact import spec_solution
 
 R_VALUES = [1.0, 2.0, 5.0, 10.0, 47.0, 100.0, 0.5]
-C_VALUES = [1e-3, 2.2e-3, 0.01, 0.5, 1.0, 4.7e-4, 1e-9, 4.7e-10]
-L_VALUES = [1e-2, 0.1, 0.5, 1.0, 2.0, 3.3e-2, 1e-9]
+R_PROBE = [2.2e8, 1e9, 4.7e10]      # probe-style giga-ohm resistors (used only where the comparison is on the element's own scale)
+C_VALUES = [1e-3, 2.2e-3, 0.01, 0.5, 1.0, 4.7e-4, 1e-9, 4.7e-10, 1e-12, 4.7e-13]
+L_VALUES = [1e-2, 0.1, 0.5, 1.0, 2.0, 3.3e-2, 1e-9, 1e-12]
 
 # names chosen so that sorted order interleaves kinds: capacitors/inductors before and after sources, 'A' < 'Is' < 'L1' < 'Vs'
 NAMES = {'R': ['R1', 'R2', 'Ra', 'r', 'R10', 'Rz'], 'C': ['C1', 'C2', 'Ca', 'Cb', 'c', 'Z'], 'L': ['L1', 'L2', 'A', 'La', 'l1', 'W'],
